@@ -5,7 +5,7 @@
 From Coq Require Import List Arith Bool ZArith QArith Reals.
 From P Require Import Geom Comb Cross Tiling Centroid.
 From Gen Require Import GenRefine GenArea GenPos GenDecomp GenGood.
-From P Require Import Model Volume Conform Main Decomp73 MainTiling.
+From P Require Import Model Volume Conform Main Decomp73 Layouts MainTiling.
 Import ListNotations.
 Open Scope nat_scope.
 
@@ -144,18 +144,85 @@ Theorem decompose_column_crossing :
   zsum (child_wns cs c start e p) = wn cs p.
 Proof. exact decompose_column_crossing_. Qed.
 Print Assumptions decompose_column_crossing.
-(** PARTIAL: exactly-one for decompose_column is proved only under the HYPOTHESIS that the new
-    columns are positively oriented triangles / strictly convex quadrilaterals; for which
-    layouts of straight nodes that holds is not proved in general (it fails for the (7,3)
-    layout of decompose_7_3_refuted, holds for decompose_7_3_positive's) *)
-Theorem decompose_column_tiles_partial :
+(** decompose_column tiles -- complete case analysis ([tiles P cols]: every point of the plane lies in
+    exactly one of [cols] if P contains it, in none otherwise).
+    (i) every result is centre-based (each new column contains the centre node: the fan, (6,2;d=2),
+        (8,4)) or one of the three centre-less entries (5,1), (6,2;d=3), (7,3);
+    (ii) centre-based results tile for ANY position of the straight nodes as soon as the centre has
+        every side strictly on its left (new columns: positive triangles / quadrilaterals split by a
+        diagonal into two positive triangles);
+    (iii) the centre-less entries tile in the layout their guard selects -- a strictly convex
+        quadrilateral A B C D with one straight node on a side / two on opposite sides / three on
+        three different sides, strictly inside the sides -- for every rotation of the numbering
+        (new columns: positive triangles / strictly convex quadrilaterals);
+    the (7,3) layout with two adjacent straight nodes: decompose_7_3_refuted / decompose_7_3_guarded. *)
+Theorem decompose_cases_covered :
+  forall nn straight start e, decompose_model nn straight = DSub start e ->
+  all_centre e = true \/ exists k rule, In (k, rule, e) decompose_table /\ existsb (key_eqb k) centreless_keys = true.
+Proof. exact decompose_cases_covered_. Qed.
+Print Assumptions decompose_cases_covered.
+Theorem decompose_centre_cases_tile :
   forall (cs : list pt) (c : pt) (straight : list nat) start e,
   decompose_model (length cs) straight = DSub start e -> start < length cs ->
-  children_good cs c start e ->
-  forall p, (wn cs p = 1%Z -> exactly_one (child_wns cs c start e p)) /\
-            (wn cs p = 0%Z -> forall j, nth j (child_wns cs c start e p) 0%Z = 0%Z).
-Proof. exact decompose_column_tiles_partial_. Qed.
-Print Assumptions decompose_column_tiles_partial.
+  interior cs c -> all_centre e = true ->
+  children_simple cs c start e /\ tiles cs (children_polys cs c start e).
+Proof. exact decompose_centre_tiles_. Qed.
+Print Assumptions decompose_centre_cases_tile.
+Theorem decompose_5_1_tiles :
+  forall (A B C D : pt) (t : R) (c : pt) (r start : nat) (e : entry),
+  convex_ccw [A; B; C; D] -> (0 < t < 1)%R -> r < 5 ->
+  decompose_model 5 (straight_rot 5 [0] r) = DSub start e ->
+  let cs := rotl r (pent_layout A B C D t) in
+  children_good cs c start e /\ tiles cs (children_polys cs c start e).
+Proof. exact decompose_5_1_tiles_. Qed.
+Print Assumptions decompose_5_1_tiles.
+Theorem decompose_6_2_3_tiles :
+  forall (A B C D : pt) (t0 t1 : R) (c : pt) (r start : nat) (e : entry),
+  convex_ccw [A; B; C; D] -> (0 < t0 < 1)%R -> (0 < t1 < 1)%R -> r < 6 ->
+  decompose_model 6 (straight_rot 6 [0; 3] r) = DSub start e ->
+  let cs := rotl r (hex_layout A B C D t0 t1) in
+  children_good cs c start e /\ tiles cs (children_polys cs c start e).
+Proof. exact decompose_6_2_3_tiles_. Qed.
+Print Assumptions decompose_6_2_3_tiles.
+Theorem decompose_7_3_tiles :
+  forall (A B C D : pt) (t0 t1 t2 : R) (c : pt) (r start : nat) (e : entry),
+  convex_ccw [A; B; C; D] -> (0 < t0 < 1)%R -> (0 < t1 < 1)%R -> (0 < t2 < 1)%R -> r < 7 ->
+  decompose_model 7 (straight_layout r) = DSub start e ->
+  let cs := rotl r (hept_layout A B C D t0 t1 t2) in
+  children_good cs c start e /\ tiles cs (children_polys cs c start e).
+Proof. exact decompose_7_3_tiles_. Qed.
+Print Assumptions decompose_7_3_tiles.
+
+(** ** composition.  If op1 tiles P by columns among which C and op2 tiles C by G, the result tiles
+    P; by induction over the sequence, every finite history of tiling steps applied to a mesh
+    (a step = some column replaced by columns that tile it) leaves every point that lay in exactly
+    one column in exactly one column, and every point that lay in none in none. *)
+Theorem tiling_closed_under_composition :
+  forall (P : list pt) l1 (C : list pt) l2 G, tiles P (l1 ++ C :: l2) -> tiles C G -> tiles P (l1 ++ G ++ l2).
+Proof. exact tiles_compose_. Qed.
+Print Assumptions tiling_closed_under_composition.
+Theorem operation_sequences_tile :
+  forall M M', steps M M' -> forall p, all01 (wns M p) ->
+  (zsum (wns M p) = 1%Z -> exactly_one (wns M' p)) /\
+  (zsum (wns M p) = 0%Z -> forall j, nth j (wns M' p) 0%Z = 0%Z).
+Proof. exact steps_tile_. Qed.
+Print Assumptions operation_sequences_tile.
+(** the modelled operations are such steps *)
+Theorem refine_is_tiling_step :
+  forall (cs : list pt) (c : pt) (sides : list nat),
+  length cs = 3 \/ length cs = 4 -> is_side_set (length cs) sides = true -> sides <> [] ->
+  convex_ccw cs -> interior cs c -> centre_ok cs c ->
+  exists istart e, refine_children (length cs) sides = Some (istart, e) /\ tiles cs (children_polys cs c istart e).
+Proof. exact refine_is_tiling_step_. Qed.
+Print Assumptions refine_is_tiling_step.
+Theorem split_is_tiling_step :
+  forall (cs : list pt) (c : pt) i0, length cs = 4 -> i0 < 4 -> convex_ccw cs -> tiles cs (children_polys cs c i0 split_entry).
+Proof. exact split_is_tiling_step_. Qed.
+Print Assumptions split_is_tiling_step.
+Theorem triangulate_is_tiling_step :
+  forall (cs : list pt) (c : pt), interior cs c -> tiles cs (children_polys cs c 0 (fan (length cs))).
+Proof. exact triangulate_is_tiling_step_. Qed.
+Print Assumptions triangulate_is_tiling_step.
 
 (** ** conformity across a shared side.  [m] is the dict sidenodes as a finite map keyed by the
     unordered pair of corner names.  Two columns A, B (3 or 4 nodes) share a side (A runs a -> b
